@@ -838,6 +838,8 @@ def run(ctx):
         "extracted and evaluated on the recorded tree of every case; a false value counts as a disagreement (%d cases, %d false)"
         % (len(cases), sum(1 for _, _, d in diffs if any("grammar" in w[0] or "t1_ok" in w[0] for w in d))))
     return ctx.finish(assumptions=[
+        "C19_wf_recorded / C19_shrink_totals_recorded have no hypothesis beyond C18's recorder model (well-nested "
+        "execution tree, contracting summariser); the tree-level forms below keep theirs:",
         "C19_wf / C19_shrink_totals: the recorded tree satisfies wf_root - task ::= (section|other)* end, "
         "section ::= (section|create|other)* wait, every create_task node has its child task, in_edge_kind of a "
         "subgraph that follows another one is a continuation kind (the recorder builds it that way; dr_dump is called "
